@@ -71,6 +71,35 @@ def scn(ids, c, calls, tag="", fault=None, budget=None):
 
 INIT = {"name": "init"}
 
+
+def vary_builder_order(sc, rng, p=0.3):
+    """the Builder calls in another order than the usual one (reset pin last, offset before size, ...), some of them
+    preceded by a decoy call of the same kind whose values the real call overrides: the options a display is built
+    with are the last ones given, whatever the order"""
+    c = sc["cfg"]
+    if c.get("model", "none") == "none" or "border" in c:
+        return
+    if not any(call["name"] in ("init", "reinit") for call in sc["calls"]):
+        return
+    # options that most families leave at their defaults: colour order, inversion and refresh order influence nothing
+    # but the address-mode byte and the inversion command, whatever else the scenario does
+    if rng.random() < 0.3 and not (c.get("bgr") or c.get("inv") or c.get("refv") or c.get("refh")) and not c["model"].startswith("tinybgr"):
+        c["bgr"] = rng.random() < 0.5; c["inv"] = rng.random() < 0.5
+        c["refv"] = rng.randrange(2); c["refh"] = rng.randrange(2)
+    if rng.random() >= p:
+        return
+    steps = ["color", "invert", "refresh", "orient"]
+    if c.get("w") is not None and c.get("h") is not None:
+        steps.append("size")
+    if c.get("ox") is not None and c.get("oy") is not None:
+        steps.append("offset")
+    if c.get("rst"):
+        steps.append("rst")
+    rng.shuffle(steps)
+    for kind in rng.sample([s for s in steps if s != "rst"], rng.randrange(0, 3)):
+        steps.insert(rng.randrange(0, steps.index(kind) + 1), kind + "0")
+    c["border"] = steps
+
 # ------------------------------------------------------------------------- program pieces
 
 
@@ -334,7 +363,16 @@ def long_stream(rng, lw, lh, oob=False, maxlen=400):
             for i in range(n):
                 emit(min(x + 2 * i, lw - 1), y)
         if oob and rng.random() < 0.3:
-            emit(rng.choice([-1, lw, lw + 1, 65536, -65536]), rng.randrange(lh))
+            far = rng.choice([65536, -65536, 131072, -131072, 65536 * 1000])
+            k = rng.random()
+            if k < 0.4:
+                emit(rng.choice([-1, lw, lw + 1, 65536, -65536]), rng.randrange(lh))
+            elif k < 0.7:       # aliases of visible positions modulo 2^16, also next to / inside a run being built
+                emit((px[-1][0] + 1 if px and rng.random() < 0.5 else rng.randrange(lw)) + far, px[-1][1] if px else rng.randrange(lh))
+            elif k < 0.9:
+                emit(rng.randrange(lw), rng.randrange(lh) + far)
+            else:
+                emit(rng.randrange(lw) + far, rng.randrange(lh) - far)
     return px[:maxlen]
 
 
@@ -654,6 +692,26 @@ def f_init_grid(ids, rng, nrandom=2000, grid_sample=1.0):
             c = cfg(model, w, h, ox, oy, rng.randrange(4), rng.random() < 0.5, iface=rng.choice(["rec", "spi"]) if W < 1000 else "rec",
                     buf=16, rst=rng.random() < 0.5)
             out.append(scn(ids, c, [INIT], tag="init-grid"))
+    # every built-in model: the acceptance rule is the Builder's alone, no model may add to it (odd sizes and
+    # offsets, one-pixel windows in the far corner, ...) or touch the hardware before a rejection
+    for model, (W, H, _col, ifs) in MODELS.items():
+        tuples = set()
+        for w in (1, 2, 3, W - 1, W, W + 1):
+            for ox in (0, 1, W - w, W - w + 1):
+                tuples.add((w, H, ox, 0)); tuples.add((w, 1, ox, H - 1))
+        for h in (1, 2, 3, H - 1, H, H + 1):
+            for oy in (0, 1, H - h, H - h + 1):
+                tuples.add((W, h, 0, oy)); tuples.add((1, h, W - 1, oy))
+        for _ in range(max(4, int(12 * min(grid_sample, 3.0)))):
+            w = rng.randrange(1, W + 1); h = rng.randrange(1, H + 1)
+            tuples.add((w, h, rng.randrange(0, W - w + 2), rng.randrange(0, H - h + 2)))
+        tl = sorted(t for t in tuples if all(0 <= v <= 65535 for v in t))
+        if grid_sample < 1.0:
+            tl = [t for t in tl if rng.random() < max(grid_sample, 0.35)]
+        for (w, h, ox, oy) in tl:
+            phys = rng.choice(ifs)
+            c = cfg(model, w, h, ox, oy, rng.randrange(4), rng.random() < 0.5, iface=rng.choice([REC_OF[phys], phys]), buf=16, rst=rng.random() < 0.5)
+            out.append(scn(ids, c, [INIT], tag="init-grid"))
     return out
 
 
@@ -771,7 +829,9 @@ def f_scroll(ids, rng, nrandom=200, offsets="sample"):
         for chunk in range(0, len(pairs), 40):
             rot, mir = rng.choice(ORIENTS)
             iface = "rec" if name not in MODELS else rng.choice([REC_OF[MODELS[name][3][0]], "rec" if "spi" in MODELS[name][3] else "rec_p8"])
-            c = cfg(name, 1, 1, 0, 0, rot, mir, iface=iface)
+            # every option that must NOT influence the scroll commands takes every value
+            c = cfg(name, 1, 1, 0, 0, rot, mir, iface=iface, rst=rng.random() < 0.5, bgr=rng.random() < 0.5,
+                    inv=rng.random() < 0.5, refv=rng.randrange(2), refh=rng.randrange(2))
             calls = [INIT]
             for (t, b) in pairs[chunk:chunk + 40]:
                 if rng.random() < 0.05:
@@ -1035,6 +1095,10 @@ def t_testimage(rng, maxsize=40, big=()):
                 rows.append({"f": "testimage", "in": [ct, w, h]})
         for (w, h) in big:
             rows.append({"f": "testimage", "in": [ct, w, h]})
+        # draw targets whose bounding box does not start at the origin (a DrawTarget only has `Dimensions`)
+        for (ox, oy) in [(5, 7), (-3, -4), (1, 0), (0, -1), (40, 40), (100000, -70000)]:
+            for (w, h) in [(32, 32), (33, 40), (40, 33), (rng.randrange(32, maxsize + 1), rng.randrange(32, maxsize + 1))]:
+                rows.append({"f": "testimage", "in": [ct, w, h, ox, oy]})
     return rows
 
 
@@ -1051,11 +1115,27 @@ def f_testimage_display(ids, rng, quick):
                         continue
                     # staging buffers that are / are not a whole number of pixels
                     c = cfg(model, w, h, ox, oy, rot, mir, iface=iface, buf=rng.choice([7, 64, 100, 512]))
-                    calls = [INIT, {"name": "test_image"}]
+                    calls = [INIT]
+                    # the image over whatever was shown before: a screen cleared to one of the image's own colours
+                    # (the driver / transport may still hold that colour staged), or the image itself
+                    pre = rng.random()
+                    if pre < 0.45:
+                        calls.append({"name": "clear", "c": rng.choice([0xF800, 0x07E0, 0x001F, 0xFFFF, 0x0000] if "666" not in model
+                                                                         else [0x3F000, 0x00FC0, 0x0003F, 0x3FFFF, 0])})
+                    elif pre < 0.6:
+                        calls.append({"name": "test_image"})
+                    calls.append({"name": "test_image"})
                     if rng.random() < 0.5:
                         r2, m2 = rng.choice(ORIENTS)
                         calls += [{"name": "set_orientation", "rot": r2, "mir": m2}, {"name": "test_image"}]
                     out.append(scn(ids, c, calls, tag="testimage"))
+    # systematically: the image over a screen cleared to each of its own colours, on the buffered transport
+    for (model, W, H, cols) in [("tiny565_40x36", 40, 36, [0xF800, 0x07E0, 0x001F, 0xFFFF, 0x0000]),
+                                ("tiny666_40x36", 40, 36, [0x3F000, 0x00FC0, 0x0003F, 0x3FFFF, 0])]:
+        for col in cols:
+            rot, mir = rng.choice(ORIENTS)
+            c = cfg(model, W, H, 0, 0, rot, mir, iface="spi", buf=rng.choice([7, 64, 100, 512]))
+            out.append(scn(ids, c, [INIT, {"name": "clear", "c": col}, {"name": "test_image"}], tag="testimage"))
     return out
 
 
@@ -1174,6 +1254,83 @@ def f_nonfused(ids, rng, n=120, ifaces=("rec", "spi", "p8", "p16"), tag="nonfuse
     return out
 
 
+def f_reinit(ids, rng, n=100, ifaces=("spi", "p8", "p16", "rec"), fault_rate=0.3, models=None):
+    """a display is used, then initialised again in the same scenario: either from scratch ("init": new interface,
+    bus and pin objects over lines that still carry the levels the earlier traffic left - D/C high, data pins high
+    after white pixels) or after Display::release() over the very same objects ("reinit": whatever the interface
+    and the bus cached survives, also across a failed call).  The second initialisation has the obligations of the
+    first one (reset first, model program, controller state) and drawing afterwards must land where it should."""
+    out = []
+    pool = models or [("tiny565_4x3", 4, 3), ("tiny565_3x3", 3, 3), ("st7789", 240, 320), ("ili9341_565", 240, 320), ("st7735s", 132, 162),
+                      ("gc9a01", 240, 240), ("ili9486_565", 320, 480), ("st7796", 320, 480), ("rm67162", 240, 536), ("gc9107", 128, 160)]
+    for _ in range(n):
+        model, W, H = rng.choice(pool)
+        ok = MODELS[model][3] if model in MODELS else ["spi", "p8", "p16", "rec"]
+        cand = [i for i in ifaces if i in ok or i == "rec" and "spi" in ok]
+        if not cand:
+            continue
+        iface = rng.choice(cand)
+        w = rng.randrange(1, min(W, 6) + 1); h = rng.randrange(1, min(H, 6) + 1)
+        ox = rng.randrange(0, W - w + 1); oy = rng.randrange(0, H - h + 1)
+        rot, mir = rng.choice(ORIENTS)
+        lw, lh = lsize(w, h, rot)
+        c = cfg(model, w, h, ox, oy, rot, mir, iface=iface, buf=rng.choice([2, 3, 5, 64]) if MODELS.get(model, ("", 0, "565"))[2] != "666" else rng.choice([3, 4, 64]),
+                rst=rng.random() < 0.5, bgr=rng.random() < 0.5, inv=rng.random() < 0.5)
+        white = 0xFFFF
+        calls = [INIT, {"name": "clear", "c": rng.choice([white, white, 0, 0x5555])}]
+        faults = []
+        for _ in range(rng.randrange(0, 4)):
+            k = rng.randrange(6)
+            if k == 0:
+                calls.append({"name": rng.choice(["sleep", "wake"])})
+            elif k == 1:
+                r2, m2 = rng.choice(ORIENTS)
+                calls.append({"name": "set_orientation", "rot": r2, "mir": m2})
+                lw, lh = lsize(w, h, r2)
+            elif k == 2:
+                calls.append({"name": "set_pixel", "x": rng.randrange(lw), "y": rng.randrange(lh), "c": rng.choice([white, 0x00FF, 0xAD55])})
+            elif k == 3:
+                calls.append({"name": "fill_solid", "rect": [0, 0, lw, lh], "c": rng.choice([white, 0xF81F, 0x0808])})
+            elif k == 4:
+                calls.append({"name": "tearing", "mode": rng.choice(["off", "v", "hv"])})
+            else:
+                calls.append({"name": "draw_iter", "px": [[i, 0, 0xA000 + i] for i in range(lw)]})
+            if rng.random() < fault_rate and iface != "rec":
+                faults.append({"call": len(calls), "k": rng.randrange(1, 30), "effect": rng.random() < 0.5})
+        calls.append({"name": rng.choice(["init", "reinit", "reinit"])})
+        lw, lh = lsize(w, h, rot)
+        col = 0x1200
+        for (x, y) in {(0, 0), (lw - 1, 0), (0, lh - 1), (lw - 1, lh - 1)}:
+            calls.append({"name": "set_pixel", "x": x, "y": y, "c": col}); col += 0x111
+        calls.append({"name": "fill_solid", "rect": [0, 0, max(lw - 1, 1), lh], "c": 0x0AA0})
+        if rng.random() < 0.4:
+            calls.append({"name": rng.choice(["sleep", "wake"])})
+            calls.append({"name": rng.choice(["init", "reinit"])})
+            calls.append({"name": "clear", "c": 0x7BEF})
+        s = scn(ids, c, calls, tag="reinit")
+        if faults:
+            s["faults"] = faults
+        out.append(s)
+    return out
+
+
+def f_big_fills(ids, rng, n=2):
+    """solid fills of more than 65535 pixels through a real Display on SPI with a small staging buffer: still one
+    window set-up, and the burst in at most floor(b / usable) + 1 transactions (a fill handed to the transport in
+    slices pays one short remainder transaction per slice)"""
+    out = []
+    for i in range(n):
+        model, W, H = rng.choice([("st7789", 240, 320), ("ili9341_565", 240, 320), ("st7796", 320, 480)]) if i else ("st7789", 240, 320)
+        buf = 14 if i == 0 else rng.choice([6, 10, 14, 18, 22, 26, 30, 34])
+        rot, mir = rng.choice(ORIENTS)
+        c = cfg(model, W, H, 0, 0, rot, mir, iface="spi", buf=buf, rst=False)
+        lw, lh = lsize(W, H, rot)
+        call = {"name": "clear", "c": rng.choice([0x1234, 0xF800])} if i % 2 == 0 else \
+               {"name": "fill_solid", "rect": [0, 0, lw, lh - rng.randrange(0, 3)], "c": 0x07E0}
+        out.append(scn(ids, c, [INIT, call], tag="big-fill", budget=2000000))
+    return out
+
+
 def f_xport_faults(ids, rng, ifaces=("p8", "p16"), n=200):
     """interface-level calls on a real transport with one failing low-level operation somewhere inside:
     what reached the bus before it must be a prefix of what was to be sent, and nothing may follow"""
@@ -1235,7 +1392,7 @@ def f_dcs_over_transports(ids, rng, n=200):
     return out
 
 
-def f_fault_retry(ids, rng, n, flavour="oob", ifaces=("spi", "rec", "p8")):
+def f_fault_retry(ids, rng, n, flavour="oob", ifaces=("spi", "rec", "p8"), tag="fault-retry"):
     """a call fails at some low-level operation, the application retries the very same call, then goes on drawing:
     whatever the failed attempt left behind (cached windows, shadow registers, staged bytes) must not make the retry or
     the later drawing go wrong.  flavour "oob": out-of-range drawing afterwards (C02); "contig": contiguous fills (C04)"""
@@ -1256,6 +1413,10 @@ def f_fault_retry(ids, rng, n, flavour="oob", ifaces=("spi", "rec", "p8")):
         elif flavour == "contig":
             op = {"name": "fill_contiguous", "rect": [rng.randrange(-1, lw), rng.randrange(-1, lh), rng.randrange(1, lw + 2), rng.randrange(1, lh + 2)],
                   "colors": {"start": 100, "len": -1}}
+        elif flavour == "colour":
+            # colours whose bytes differ in many bits from what the bus carried before
+            op = rng.choice([{"name": "set_pixel", "x": rng.randrange(lw), "y": rng.randrange(lh), "c": rng.choice([0xF800, 0xAD55, 0x52AA, 0xFFFF])},
+                             {"name": "fill_solid", "rect": [0, 0, lw, lh], "c": rng.choice([0xF81F, 0x07E0, 0xA5A5])}])
         else:
             op = {"name": "draw_iter", "px": [[rng.randrange(-1, lw + 1), rng.randrange(-1, lh + 1), 40 + i] for i in range(4)]}
         calls.append(op)
@@ -1267,6 +1428,11 @@ def f_fault_retry(ids, rng, n, flavour="oob", ifaces=("spi", "rec", "p8")):
                 r = [rng.randrange(-1, lw), rng.randrange(-1, lh), rng.randrange(1, lw + 2), rng.randrange(1, lh + 2)]
                 calls.append({"name": "fill_contiguous", "rect": r, "colors": {"start": col, "len": rng.choice([-1, r[2] * r[3], rng.randrange(0, r[2] * r[3] + 1)])}})
                 col += 50
+            elif flavour == "colour":
+                cc = rng.choice([0x001F, 0x07E0, 0xF800, 0x0000, 0xFFFF, 0x8410, 1 << rng.randrange(16)])
+                calls.append(rng.choice([{"name": "set_pixel", "x": rng.randrange(lw), "y": rng.randrange(lh), "c": cc},
+                                         {"name": "clear", "c": cc},
+                                         {"name": "draw_iter", "px": [[i % lw, i // lw, (cc + i * 0x0841) % 65536] for i in range(min(lw * lh, 3))]}]))
             else:
                 k = rng.randrange(3)
                 if k == 0:
@@ -1276,7 +1442,7 @@ def f_fault_retry(ids, rng, n, flavour="oob", ifaces=("spi", "rec", "p8")):
                 else:
                     calls.append({"name": "clear", "c": col})
                 col += 7
-        s = scn(ids, c, calls, tag="fault-retry")
-        s["faults"] = [{"call": fcall, "k": rng.randrange(1, 14), "effect": False}]
+        s = scn(ids, c, calls, tag=tag)
+        s["faults"] = [{"call": fcall, "k": rng.randrange(1, 40 if flavour == "colour" else 14), "effect": flavour == "colour" and rng.random() < 0.5}]
         out.append(s)
     return out
